@@ -92,6 +92,30 @@ def run(ctx: core.Ctx):
                 ctx.count(2)
                 if A.shape != (len(ys),) or not np.allclose(A, zs, rtol=0, atol=1e-12, equal_nan=True) or A2.shape != (2, len(ys)) or not np.allclose(A2[1], zs, rtol=0, atol=1e-12, equal_nan=True):
                     ctx.violation(f"{k}.tsukamoto/array", base, zs, A.tolist())
+                # a long-lived term of this kind, used before with other parameters and re-parameterised by plain attribute
+                # assignment, then called with arrays of the same shape as an earlier call: nothing may survive from earlier uses
+                from .fll import ATTRS
+                pool = run.__dict__.setdefault("pool", {})
+                if k in pool:
+                    lt = pool[k]
+                    for a_, v_ in zip(ATTRS[k], p):
+                        setattr(lt, a_, float(v_))
+                    lt.height = float(h)
+                    first = np.asarray(lt.tsukamoto(np.array(ys[::-1])), dtype=float)
+                    keep = first.copy()
+                    B = np.asarray(lt.tsukamoto(np.array(ys)), dtype=float)
+                    ctx.count(2)
+                    if not np.array_equal(first, keep, equal_nan=True):
+                        ctx.violation(f"{k}.tsukamoto/result-aliased", base, "unchanged by a later call", "modified")
+                    elif not np.allclose(B, zs, rtol=0, atol=1e-12, equal_nan=True) or not np.allclose(first, zs[::-1], rtol=0, atol=1e-12, equal_nan=True):
+                        ctx.violation(f"{k}.tsukamoto/re-parameterised-object-differs", base, zs, B.tolist(), note="a long-lived term re-parameterised by attribute assignment differs from a fresh one")
+                    m1 = [float(lt.membership(z)) for z in zs if math.isfinite(z)]
+                    m2 = [float(term.membership(z)) for z in zs if math.isfinite(z)]
+                    if m1 != m2:
+                        ctx.violation(f"{k}.membership/re-parameterised-object-differs", base, m2, m1)
+                else:
+                    pool[k] = build(fl, k, p, h)
+                    pool[k].tsukamoto(np.array(ys))
             except Exception as ex:
                 ctx.violation(f"{k}.tsukamoto/array-raises", base, "elementwise values", f"{type(ex).__name__}: {ex}")
         ctx.traces += len(g.emitted)
